@@ -147,7 +147,7 @@ class Scale(EnvironmentFilter):
         if is_value_context:
             potential_keys = [0]
 
-        if not potential_keys:
+        if not potential_keys and not is_sparse_context:
             yield from chain(fitting_interactions,remaining_interactions)
             return
 
@@ -163,7 +163,7 @@ class Scale(EnvironmentFilter):
 
         #get the shift/scale values for columns
         scaling_vals = list(map(self._get_shift_and_scale,cols))
-        if all((v is None for v in scaling_vals)):
+        if all((v is None for v in scaling_vals)) and not is_sparse_context:
             yield from chain(fitting_interactions, remaining_interactions)
             return
 
@@ -182,12 +182,18 @@ class Scale(EnvironmentFilter):
 
         if is_sparse_context:
             scaling_dict = dict(zip(scaling_keys,scaling_vals))
+            #a key that is absent from all the fitting contexts has the value 0 in each of them
+            unseen_vals = self._get_shift_and_scale([0]*len(fitting_contexts))
+            seen_keys   = potential_keys | unscalable_cols
             for interaction in chain(fitting_interactions, remaining_interactions):
                 context = interaction['context']
                 for k in scaling_dict.keys() & context.keys():
                     (shift,scale) = scaling_dict[k]
                     if context[k] is not None:
                         context[k] = (context[k]+shift)*scale
+                for k in (context.keys() - seen_keys if unseen_vals else ()):
+                    if isinstance(context[k],(int,float)):
+                        context[k] = (context[k]+unseen_vals[0])*unseen_vals[1]
                 yield interaction
 
         elif is_value_context:
